@@ -1,0 +1,7 @@
+//go:build !verif
+
+package gabi
+
+// verifHook is the disabled verification hook: an empty function that the compiler inlines away.
+// With the build tag verif it is replaced by a settable (and possibly blocking) hook, see hook_verif.go.
+func verifHook(point string, args ...any) {}
